@@ -433,6 +433,11 @@ def check_property(prop, tier='quick'):
         'wall_s': round(wall, 2),
         'violations': len(violations),
     }
+    if level == 'proof' and (undecided or violations or ev['coverage']['obligations'] < 1 or ev['coverage']['discharged'] != ev['coverage']['obligations']):
+        # a run that did not end in "every obligation discharged" makes no proof claim: record it as such (schema: level other)
+        ev['level'] = 'other'
+        ev['coverage']['explanation'] = ('THIS RUN MAKES NO PROOF CLAIM: %s. Counts are partial. ' % (
+            'violation reported' if violations else ('undecided (exit 2): ' + '; '.join(undecided)[:600]) if undecided else 'not every obligation discharged')) + ev['coverage']['explanation']
     os.makedirs(os.path.join(ROOT, 'evidence'), exist_ok=True)
     json.dump(ev, open(os.path.join(ROOT, 'evidence', prop + '.json'), 'w'), indent=1)
     # ---- verdict
